@@ -262,4 +262,51 @@ theorem winv_init (m : List (Nat × Nat)) (next : Nat) (ops : List Op) (hk : (m.
   · intro j c hj hp; rw [hpc j c hj] at hp; simp at hp
   · intro j c wid hj hp; rw [hpc j c hj] at hp; simp at hp
 
+theorem wstep_ne_nil_of (s : Worlds.State) (i : Nat) (c : Worlds.Client) (hc : s.clients[i]? = some c)
+    (h : Worlds.clientStep s i c ≠ []) : Worlds.step s ≠ [] := by
+  obtain ⟨x, hx⟩ := List.exists_mem_of_ne_nil _ h
+  intro e
+  have : x ∈ Worlds.step s := mem_forWorkers.mpr ⟨i, c, hc, hx⟩
+  rw [e] at this
+  simp at this
+
+/-- the mutex model never deadlocks: the holder of `MutableWorlds.lock` can always go on, and when nobody holds
+it every unfinished caller can take it -/
+theorem worlds_not_deadlocked (s : Worlds.State) (h : WInv s) :
+    deadlocked Worlds.step Worlds.terminal s = false := by
+  unfold deadlocked
+  cases ht : Worlds.terminal s
+  · simp only [Bool.not_false, Bool.and_true]
+    have hne : Worlds.step s ≠ [] := by
+      cases hh : s.holder with
+      | some i =>
+        have hi := h.valid i hh
+        have hc : s.clients[i]? = some s.clients[i] := List.getElem?_eq_getElem hi
+        have hin := (h.hold i _ hc).mpr hh
+        apply wstep_ne_nil_of s i _ hc
+        unfold Worlds.clientStep
+        cases hpc : (s.clients[i]).pc <;> simp [inCS, hpc] at hin ⊢
+        · cases hop : (s.clients[i]).op <;> simp
+          split <;> simp
+        · obtain ⟨wid, hop, _⟩ := h.ins i _ hc hpc
+          simp [hop]
+      | none =>
+        have hnd : ∃ c ∈ s.clients, ¬ (c.pc == Worlds.Pc.done) = true := by
+          unfold Worlds.terminal at ht
+          exact (List.all_eq_false (p := fun c => c.pc == Worlds.Pc.done) (l := s.clients)).mp ht
+        obtain ⟨c0, hm, hnd0⟩ := hnd
+        obtain ⟨i0, hi0⟩ := List.getElem?_of_mem hm
+        have hout : inCS c0.pc = false := by
+          cases hcs : inCS c0.pc
+          · rfl
+          · have := (h.hold i0 c0 hi0).mp hcs; rw [hh] at this; simp at this
+        apply wstep_ne_nil_of s i0 c0 hi0
+        unfold Worlds.clientStep
+        cases hpc : c0.pc <;> simp [inCS, hpc] at hout hnd0 ⊢
+        simp [B6.Model.Proto.guard, hh]
+    cases hst : Worlds.step s with
+    | nil => exact absurd hst hne
+    | cons _ _ => rfl
+  · simp
+
 end B6.Lemmas.ProtoWorlds
